@@ -3,8 +3,11 @@ package main
 
 import (
 	"fmt"
+	"math/rand"
 	"regexp"
 	"strings"
+	"sync"
+	"sync/atomic"
 
 	"deps.dev/util/semver"
 
@@ -14,10 +17,65 @@ import (
 )
 
 func exec(f []string) string {
+	if len(f) >= 3 && f[0] == "probe" && f[1] == "conc" {
+		return concProbe(f[2], f[3:])
+	}
 	if r, ok := semverops.Exec(f); ok {
 		return r
 	}
 	return "bad-op"
+}
+
+// concProbe: parsed versions are values that many goroutines may compare at once (resolvers
+// share them through clients). The versions are parsed ONCE; eight goroutines then compare the
+// shared objects in random order for a while, and every answer must equal the sequential one.
+// Go-only (the Lean model has no threads): `ok 1` = all concurrent answers agree.
+func concProbe(sysName string, hexes []string) string {
+	sys, ok := semverops.SysNames[sysName]
+	if !ok {
+		return "bad-op"
+	}
+	var vs []*semver.Version
+	for _, h := range hexes {
+		v, err := sys.Parse(fw.Unhx(h))
+		if err != nil {
+			return "err"
+		}
+		vs = append(vs, v)
+	}
+	n := len(vs)
+	want := make([][]int, n)
+	for i := range vs {
+		want[i] = make([]int, n)
+		for j := range vs {
+			want[i][j] = vs[i].Compare(vs[j])
+		}
+	}
+	var bad atomic.Int64
+	var wg sync.WaitGroup
+	for g := 0; g < 8; g++ {
+		wg.Add(1)
+		go func(seed int64) {
+			defer wg.Done()
+			defer func() {
+				if recover() != nil {
+					bad.Add(1)
+				}
+			}()
+			r := rand.New(rand.NewSource(seed))
+			for k := 0; k < 4000; k++ {
+				i, j := r.Intn(n), r.Intn(n)
+				if vs[i].Compare(vs[j]) != want[i][j] {
+					bad.Add(1)
+				}
+			}
+		}(int64(g) + 1)
+	}
+	wg.Wait()
+	if bad.Load() != 0 {
+		return "ok 0"
+	}
+	return "ok 1"
 }
 
 // mavenElems reconstructs (sep, str) elements from a Maven canonical string.
@@ -113,6 +171,10 @@ func opArgs(line string) (semver.System, string, string) {
 func recheck(oracle string, ops, res []string) (bool, string) {
 	get := func(i int) (int, bool) { return parseRes(res[i]) }
 	switch oracle {
+	case "conc": // probe conc <Sys> <versions>
+		if res[0] == "ok 0" || res[0] == "panic" {
+			return true, "concurrent comparisons of shared parsed versions disagree with the sequential answers"
+		}
 	case "refl": // cmp a a
 		c, ok := get(0)
 		if !ok || c != 0 {
@@ -283,6 +345,58 @@ func run(c *fw.Ctx) {
 			fam = append(fam, pool[c.Rng.Intn(n)], pool[c.Rng.Intn(n)])
 			c.Count(fmt.Sprintf("%s:family-size-%d", sys, len(fam)))
 			checkPool(c, sys, dedup(fam), false)
+		}
+		// PyPI local labels: two segments from a small alphabet joined by each of the three
+		// separators PEP 440 allows, on one release: all pairs and all triples
+		if sys == semver.PyPI {
+			var fam []string
+			segs := []string{"a", "b", "z", "1", "10"}
+			for _, x := range segs {
+				for _, sep := range []string{".", "-", "_"} {
+					for _, y := range segs {
+						if c.Thor || c.Rng.Intn(2) == 0 {
+							fam = append(fam, "1.0+"+x+sep+y)
+						}
+					}
+				}
+			}
+			fam = append(fam, "1.0+a", "1.0+A", "1.0+1", "1.0")
+			checkPool(c, sys, dedup(fam), false)
+		}
+		// every identifier of the pool as the single prerelease identifier of one release (generic
+		// systems): all pairs and all triples
+		if sys != semver.Maven && sys != semver.PyPI && sys != semver.RubyGems {
+			var fam []string
+			pre := "1.0.0-"
+			if sys == semver.Go {
+				pre = "v1.0.0-"
+			}
+			for _, id := range semverops.IdentPool() {
+				if _, err := sys.Parse(pre + id); err == nil {
+					fam = append(fam, pre+id)
+				}
+			}
+			checkPool(c, sys, dedup(fam), false)
+		}
+		// shared parsed versions compared concurrently: a base version, near spellings of it (with
+		// added, dropped and re-separated components) and two pool members
+		for t, nt := 0, c.N(12, 120); t < nt && n > 2; t++ {
+			base := pool[c.Rng.Intn(n)]
+			fam := []string{base, pool[c.Rng.Intn(n)], pool[c.Rng.Intn(n)]}
+			for _, v := range semverops.Variants(c.Rng, base, 10) {
+				if !semverops.InModelDomain(sys, v) {
+					continue
+				}
+				if _, err := sys.Parse(v); err == nil {
+					fam = append(fam, v)
+				}
+			}
+			line := fmt.Sprintf("C01 probe conc %s", sys)
+			for _, v := range dedup(fam) {
+				line += " " + fw.Hx(v)
+			}
+			k, _ := c.Op(line)
+			c.Check("conc", k)
 		}
 		// build metadata never changes the result
 		if sys != semver.Maven && sys != semver.PyPI && sys != semver.RubyGems {
